@@ -31,7 +31,7 @@ def gen_defs(tier, seed):
 
 def gen_build(tier, seed, todfs=False):
     r = rng(seed, "defs" if todfs else "build")
-    ncases = (40 if todfs else 120) if tier == "quick" else (600 if todfs else 2500)
+    ncases = (60 if todfs else 300) if tier == "quick" else (600 if todfs else 2500)
     lines = []
     stats = {"cases": 0, "systems": 0, "route_direct": 0, "route_csv": 0, "route_xlsx": 0, "route_reader": 0, "bad_on_purpose": 0,
              "flows": 0, "stocks": 0, "params": 0, "process_lists": 0, "dimfiles": 0, "dimfile_bad": 0}
